@@ -541,6 +541,7 @@ _CM = "urwid/display/common.py"
 _RW = "urwid/display/_raw_display_base.py"
 _HT = "urwid/display/html_fragment.py"
 MUTANTS = [
+    Mut("twin-tagmarkup-tuple-by-index", "urwid/util.py", "_tagmarkup_recurse", "        attr, element = tm\n", "        attr = tm[0]\n        element = tm[1]\n", twin=True),
     Mut("twin-palette-lookup-keys", "urwid/display/_raw_display_base.py", "urwid.display._raw_display_base.Screen.draw_screen.<locals>.attr_to_escape", "            if a in self._pal_escape:\n", "            if a in self._pal_escape.keys():\n", twin=True),
     Mut("markup-empty-string-zero-run", "urwid/util.py", "_tagmarkup_recurse", "    return [tm], ([(attr, len(tm))] if tm else [])\n", "    return [tm], [(attr, len(tm))]\n", "RUNPOS|util._tagmarkup_recurse|run length len(tm) not shown positive"),
     Mut("twin-markup-empty-string-early-return", "urwid/util.py", "_tagmarkup_recurse", "    return [tm], ([(attr, len(tm))] if tm else [])\n", "    if not tm:\n        return [tm], []\n    return [tm], [(attr, len(tm))]\n", twin=True),
